@@ -579,10 +579,30 @@ class LoopCut(Exception):
     pass
 
 
+MINI_ISA = 'NOP (00), EI (FB), DI (F3), JP nn (C3)'
+
+
+def mini_step(path, regs, mem_arr):
+    """effect of the instruction at PC when it is one of NOP / EI / DI / JP nn, as terms (no forking):
+    -> (pc', T', iff', r')   regs: list of 64-bit terms"""
+    pc16 = z3.Extract(15, 0, regs[24])
+    op = z3.Select(mem_arr, pc16)
+    path.assume(z3.Or(op == 0x00, op == 0xFB, op == 0xF3, op == 0xC3))
+    target = z3.ZeroExt(W - 8, z3.Select(mem_arr, pc16 + 1)) + 256 * z3.ZeroExt(W - 8, z3.Select(mem_arr, pc16 + 2))
+    seq = z3.ZeroExt(W - 16, pc16 + 1)
+    pc2 = z3.If(op == 0xC3, target, seq)
+    t2 = regs[25] + z3.If(op == 0xC3, z3.BitVecVal(10, W), z3.BitVecVal(4, W))
+    iff2 = z3.If(op == 0xFB, z3.BitVecVal(1, W), z3.If(op == 0xF3, z3.BitVecVal(0, W), regs[26]))
+    r = regs[15]
+    r2 = (r & 0x80) | ((r + 1) & 0x7F)
+    return pc2, t2, iff2, r2
+
+
 def check_runloop(item):
-    """('runloop', contention, mach): Simulator.run(start, stop, interrupts=True) against CSimulator_run (IR), with the
-    instruction itself replaced on both sides by the same havoc step (fresh PC, IFF, T += dt): two loop iterations from an
-    arbitrary state; the loop is cut before a third instruction.  Compared: the complete state when the loop exits or is cut."""
+    """('runloop', contention, mach): Simulator.run(start, stop, interrupts=True) against CSimulator_run (IR).  The instruction
+    handlers are replaced on both sides by the same small instruction set (NOP, EI, DI, JP nn: exact effects on PC, T, IFF, R as
+    terms), so that the loop logic - next-interrupt bookkeeping vs T mod frame, the EI / prefix deferral in accept_interrupt, the
+    stop test - is explored for every clock value and a counterexample is a real program.  Two iterations; cut before a third."""
     _, contention, mach = item
     N = 2
     M = pmachine('CMIOSimulator' if contention else 'Simulator', '48K', False)
@@ -593,35 +613,32 @@ def check_runloop(item):
     name = 'run(start, stop, interrupts=True) loop, %s' % ('contended' if contention else 'plain')
     nregs = 30 if contention else 29
 
-    def havoc_vars(i):
-        return (z3.BitVec('h_pc%d' % i, W), z3.BitVec('h_dt%d' % i, W), z3.BitVec('h_iff%d' % i, W))
-
     def fn(path):
         M.reset(path)
+        # bound: the clock starts within the first two frames (the loop depends on T only through T mod frame and multiples of
+        # the frame length: behaviour is invariant under shifting T by whole frames); this keeps frame quotients in 0..2
+        path.assume(z3.ULT(M.regs0[25], 2 * fd))
+        M.sim.registers[25] = SymInt(M.regs0[25], 0, 2 * fd - 1)
         start = sym_int('start', 0, 65535)
         stop = sym_int('stop', 0, 65535)
-        hv = [havoc_vars(i) for i in range(N)]
-        for pcv, dtv, iffv in hv:
-            path.assume(pcv >= 0, pcv <= 65535, dtv >= 4, dtv <= 300, iffv >= 0, iffv <= 1)
-        # the opcode at every PC visited is not a prefix (dispatch is not the subject here)
         calls = {'py': 0, 'c': 0}
         regs = M.sim.registers
 
-        def py_havoc():
-            i = calls['py']
-            if i >= N:
+        def py_step():
+            if calls['py'] >= N:
                 raise LoopCut()
             calls['py'] += 1
-            pcv, dtv, iffv = hv[i]
-            regs[24] = SymInt(pcv, 0, 65535)
-            regs[25] = regs[25] + SymInt(dtv, 4, 300)
-            regs[26] = SymInt(iffv, 0, 1)
+            pc2, t2, iff2, r2 = mini_step(path, [bv(x) for x in regs], M.mem.arr)
+            regs[24] = SymInt(z3.simplify(pc2), 0, 65535)
+            regs[25] = SymInt(z3.simplify(t2), 0, 2 * fd + 100)
+            regs[26] = SymInt(z3.simplify(iff2), 0, 1)
+            regs[15] = SymInt(z3.simplify(r2), 0, 255)
 
-        class Havoc(list):
+        class Steps(list):
             def __getitem__(self, k):
-                return py_havoc
+                return py_step
         real_opcodes = M.sim.opcodes
-        M.sim.opcodes = Havoc()
+        M.sim.opcodes = Steps()
         py_cut = False
         try:
             M.sim.run(start, stop, True)
@@ -629,20 +646,16 @@ def check_runloop(item):
             py_cut = True
         finally:
             M.sim.opcodes = real_opcodes
-        # C side
         cst = CM.state(M.regs0, M.mem0)
         it = llsym.Interp(CM.m, CM.m.field_names, cst, path, CM.m.table_dims)
 
-        def c_havoc():
-            i = calls['c']
-            if i >= N:
+        def c_step():
+            if calls['c'] >= N:
                 raise LoopCut()
             calls['c'] += 1
-            pcv, dtv, iffv = hv[i]
-            cst.regs[24] = pcv
-            cst.regs[25] = cst.regs[25] + dtv
-            cst.regs[26] = iffv
-        it.runloop = dict(start=z3.Extract(31, 0, start.e), stop=z3.Extract(31, 0, stop.e), interrupts=z3.BitVecVal(1, 32), havoc=c_havoc)
+            pc2, t2, iff2, r2 = mini_step(path, cst.regs, cst.mem)
+            cst.regs[24], cst.regs[25], cst.regs[26], cst.regs[15] = z3.simplify(pc2), z3.simplify(t2), z3.simplify(iff2), z3.simplify(r2)
+        it.runloop = dict(start=z3.Extract(31, 0, start.e), stop=z3.Extract(31, 0, stop.e), interrupts=z3.BitVecVal(1, 32), havoc=c_step)
         c_cut = False
         try:
             it.call('CSimulator_run', [llsym.Ptr(('self',)), llsym.Ptr(('pyobj', 'args')), llsym.Ptr(('pyobj', 'kwds'))])
@@ -670,15 +683,16 @@ def check_runloop(item):
             if mod is None:
                 r, mod = p.check(model=True); which = ['side obligation']
             ev = lambda n_: mod.eval(z3.BitVec(n_, W), model_completion=True).as_long()
-            regs = [mod.eval(x, model_completion=True).as_long() for x in M.regs0]
-            hvv = [[ev('h_pc%d' % i), ev('h_dt%d' % i), ev('h_iff%d' % i)] for i in range(N)]
-            res['violations'].append(dict(key='%s:%s' % (name, which[0][:40]), text='%s: Python and C differ in %s (T=%d, start=%d, stop=%d, steps %r)' % (name, '; '.join(which[:4]), regs[25], ev('start'), ev('stop'), hvv),
-                                          case=dict(kind='runloop', contention=contention, regs=regs, start=ev('start'), stop=ev('stop'), havoc=hvv)))
+            regs, mem, _ = simcheck.model_state(mod, M)
+            exits = not py_cut and not c_cut
+            res['violations'].append(dict(key='%s:%s:%s' % (name, 'exit' if exits else 'cut', which[0][:40]),
+                                          text='%s: Python and C differ in %s (T=%d, start=%d, stop=%d; %s)' % (name, '; '.join(which[:4]), regs[25], ev('start'), ev('stop'), 'both loops exit' if exits else 'cut after two instructions'),
+                                          case=dict(kind='runloop', contention=contention, regs=regs, start=ev('start'), stop=ev('stop'), mem=mem, exits=exits)))
             return
         res['discharged'] += 1
         res['nontrivial'] += 1
         if not res['samples']:
-            res['samples'].append({'item': name, 'iterations': calls['py'], 'cut': py_cut, 'obligation': 'same registers/memory and same number of instructions executed', 'verdict': 'unsat'})
+            res['samples'].append({'item': name, 'iterations': calls['py'], 'cut': py_cut, 'instruction_set': MINI_ISA, 'obligation': 'same registers/memory and same number of instructions executed', 'verdict': 'unsat'})
 
     try:
         explore(fn, stats=st, on_path=on)
@@ -733,7 +747,9 @@ def replay(case):
     if kind == 'table':
         n, bad = csim.compare_tables(case['contention'])
         return bool(bad), 'C/Python table mismatches: %r' % (bad[:2],)
-    if kind not in ('step', 'interrupt'):
+    if kind == 'runloop' and not case.get('exits'):
+        return False, 'the two loops differ only after the cut (no terminating program to replay)'
+    if kind not in ('step', 'interrupt', 'runloop'):
         return False, 'no replay for ' + kind
     contention = case['contention']
     ext = csim.build_extension(contention)
@@ -786,6 +802,8 @@ def replay(case):
         try:
             if kind == 'interrupt':
                 sim.accept_interrupt(sim.registers, sim.memory, case['prev_pc'])
+            elif kind == 'runloop':
+                sim.run(case['start'], case['stop'], True)
             else:
                 sim.run(regs[24])
         except Exception as e:
